@@ -871,7 +871,10 @@ class Gen:
         regions = [self.conformant_region(rng.randint(0, depth), edge) for _ in range(nr)]
         zero = rng.random() < 0.04
         return {'ns2019': rng.random() < 0.5, 'meta': self.meta(),
-                'image_filename': rng.choice([None, 'scan_001.jpg', 'NL-HaNA_1.01.02_3780_0016.jpg', 'a&b <1>.tif', 'é 漢.png']),
+                'image_filename': rng.choice([None, 'scan_001.jpg', 'NL-HaNA_1.01.02_3780_0016.jpg', 'a&b <1>.tif', 'é 漢.png',
+                                             # the attribute is an xsd:string: relative paths and URLs are conformant
+                                             'images/batch-07/scan_0001.jpg', 'https://example.org/iiif/3/ab%2Fcd/full/max/0/default.jpg',
+                                             '../scans/0001.tif', 'dir\\file name.jpg']),
                 'width': 0 if zero else rng.choice([1, 100, 2480, 10 ** 9]),
                 'height': 0 if (zero and rng.random() < 0.5) else rng.choice([1, 200, 3508, 10 ** 9]),
                 'ro_first': rng.random() < 0.5, 'ro': self.ro_for(regions, ro_kind),
